@@ -1,5 +1,5 @@
 """C02 — emu-mps TDVP dynamics (structural clauses)."""
-from ..rules import perm, step, tdvp
+from ..rules import drivers, perm, step, tdvp
 
 META = {
     "title": "emu-mps TDVP runs reproduce the Pulser Hamiltonian dynamics",
@@ -42,3 +42,4 @@ def check(ctx):
     ctx.floor("BATHS-pairing", 4)
     ctx.floor("UNITS-mps", 6)
     ctx.floor("HERM", 4)
+    drivers.run_loops(ctx)
